@@ -104,8 +104,11 @@ LOOM_RULES = {
     "time/monotonic_time.rs": [
         (r"^use std::sync::atomic::", "use loom::sync::atomic::"),
     ],
+    "util/sync_cell.rs": [
+        (r"^use std::cell::Cell;", "use std::cell::Cell;"),
+    ],
     "lib.rs": [
-        (r"^mod loom_exports;", "pub(crate) mod loom_exports;\n#[path = \"%(HARNESS)s/mod.rs\"]\npub mod vxharness;"),
+        (r"^mod loom_exports;", "extern crate self as nexosim;\npub(crate) mod loom_exports;\n#[path = \"%(HARNESS)s/mod.rs\"]\npub mod vxharness;"),
     ],
 }
 
